@@ -1,11 +1,14 @@
 /-
   C47 — model of the two tunnels:
-    bfe_websocket/server_conn.go  serve / websocketDataTransfer  (flush of the two buffered prefixes, then two io.Copy
-                                  goroutines, errCh, shutDownIn(250ms) -> deferred Close of both connections)
+    bfe_websocket/server_conn.go  serve / websocketDataTransfer  (write of the two buffered prefixes — either may fail and
+                                  then the relays are never started —, two io.Copy goroutines, errCh,
+                                  shutDownIn(250ms) -> deferred Close of both connections)
     bfe_stream/server_conn.go     serve / TLSProxyHandler        (two io.Copy goroutines, copyErrCh, same wait loop;
-                                  no bufio in front of the tunnel: both prefixes are empty and `flushed` starts true)
-  Core-only.  Granularity: one step = one peer action, the prefix flush, one read+write iteration of an io.Copy loop,
-  the termination of a relay, or serve() closing both connections.  Any interleaving of these is a schedule.
+                                  no bufio in front of the tunnel: empty prefixes, relays started at once)
+  Core-only.  Granularity (round 2): io.Copy is split into its read and its write: a read moves n bytes from the
+  socket queue into the copy buffer (`held`) and may come WITH an error (n > 0 or n = 0); a write either takes the
+  whole buffer or fails after k < |held| bytes (short write / error after a partial write); after a failed write or
+  an erroneous read the relay returns and its error goes to errCh.  Any interleaving of these is a schedule.
 -/
 namespace BfeVerif.C47
 
@@ -13,9 +16,12 @@ abbrev Bytes := List UInt8
 
 /-- one direction of the tunnel: `prefix (buffered at upgrade) ++ copy loop` -/
 structure Dir where
-  pre : Bytes          -- bytes already read into bfe's bufio reader behind the upgrade request / the 101 response
+  pre : Bytes          -- (ghost) bytes in bfe's bufio reader behind the upgrade request / the 101 response
+  preLeft : Bytes      -- the part of `pre` the prefix write has not written yet
   sent : Bytes         -- (ghost) everything the source peer has written into the tunnel after that
   inq : Bytes          -- bytes of `sent` not yet read by the relay (socket buffers)
+  held : Bytes         -- io.Copy's buffer: read, not yet written
+  rdErr : Bool         -- the last read returned an error: the relay returns once `held` is written
   out : Bytes          -- bytes written to the destination peer
   srcClosed : Bool     -- the source peer closed its side
   done : Bool          -- the relay goroutine returned (its error went to errCh)
@@ -24,27 +30,35 @@ deriving DecidableEq, Repr
 structure St where
   c2b : Dir            -- client -> backend
   b2c : Dir            -- backend -> client
-  flushed : Bool       -- websocketDataTransfer has written both prefixes (tls: true from the start)
+  stage : Nat          -- 0: before `bconn.Write(cbuf)`, 1: before `cconn.Write(bbuf)`, 2: relays running, 3: a prefix write failed (errCh <- err; return)
   shut : Bool          -- serve() returned: cconn and bconn closed
 deriving DecidableEq, Repr
 
-def Dir.init (pre : Bytes) : Dir := { pre := pre, sent := [], inq := [], out := [], srcClosed := false, done := false }
+def Dir.init (pre : Bytes) : Dir :=
+  { pre := pre, preLeft := pre, sent := [], inq := [], held := [], rdErr := false, out := [], srcClosed := false, done := false }
 
-def St.init (pc pb : Bytes) (flushed : Bool) : St :=
-  { c2b := Dir.init pc, b2c := Dir.init pb, flushed := flushed, shut := false }
+/-- websocket: `St.init pc pb 0`; TLS stream: `St.init [] [] 2` -/
+def St.init (pc pb : Bytes) (stage : Nat) : St :=
+  { c2b := Dir.init pc, b2c := Dir.init pb, stage := stage, shut := false }
 
 inductive Step
   | send (toB : Bool) (bs : Bytes)   -- the client (toB) / the backend writes bs
   | close (toB : Bool)               -- the client (toB) / the backend closes
-  | flush                            -- `bconn.Write(cbuf)` then `cconn.Write(bbuf)`
-  | copy (toB : Bool) (n : Nat)      -- one io.Copy iteration: read n available bytes, write them
-  | eof (toB : Bool)                 -- io.Copy reads EOF (source closed, nothing left): relay returns nil
-  | wfail (toB : Bool)               -- io.Copy's write fails (destination closed): relay returns the error
+  | flushOk                          -- the pending prefix write (`bconn.Write(cbuf)`, then `cconn.Write(bbuf)`) succeeds
+  | flushFail (k : Nat)              -- it fails after k < |prefix| bytes: `errCh <- err; return`
+  | rd (toB : Bool) (n : Nat)        -- io.Copy: src.Read returns n ≥ 1 bytes, nil
+  | rdE (toB : Bool) (n : Nat)       -- io.Copy: src.Read returns n ≥ 0 bytes and an error (not EOF)
+  | wr (toB : Bool)                  -- io.Copy: dst.Write takes the whole buffer
+  | wrFail (toB : Bool) (k : Nat)    -- io.Copy: dst.Write returns k < |buffer| and an error / a short write
+  | eof (toB : Bool)                 -- io.Copy: src.Read returns 0, io.EOF: the relay returns nil
   | shutdown                         -- serve(): errCh fired, timer, deferred Close of both connections
 deriving DecidableEq, Repr
 
 def St.get (s : St) (toB : Bool) : Dir := if toB then s.c2b else s.b2c
 def St.set (s : St) (toB : Bool) (d : Dir) : St := if toB then { s with c2b := d } else { s with b2c := d }
+
+/-- a relay can take a step: relays running, connections open, goroutine alive -/
+def St.live (s : St) (toB : Bool) : Bool := s.stage == 2 && !s.shut && !(s.get toB).done
 
 /-- enabledness + effect of one step; `none` = not enabled in this state -/
 def step (s : St) : Step → Option St
@@ -54,25 +68,42 @@ def step (s : St) : Step → Option St
   | .close toB =>
     let d := s.get toB
     if d.srcClosed then none else some (s.set toB { d with srcClosed := true })
-  | .flush =>
-    if s.flushed ∨ s.shut then none
-    else some { s with flushed := true,
-                       c2b := { s.c2b with out := s.c2b.out ++ s.c2b.pre },
-                       b2c := { s.b2c with out := s.b2c.out ++ s.b2c.pre } }
-  | .copy toB n =>
+  | .flushOk =>
+    if s.shut then none
+    else if s.stage = 0 then
+      some { s with stage := 1, c2b := { s.c2b with out := s.c2b.out ++ s.c2b.preLeft, preLeft := [] } }
+    else if s.stage = 1 then
+      some { s with stage := 2, b2c := { s.b2c with out := s.b2c.out ++ s.b2c.preLeft, preLeft := [] } }
+    else none
+  | .flushFail k =>
+    if s.shut then none
+    else if s.stage = 0 ∧ k < s.c2b.preLeft.length then
+      some { s with stage := 3, c2b := { s.c2b with out := s.c2b.out ++ s.c2b.preLeft.take k, preLeft := s.c2b.preLeft.drop k } }
+    else if s.stage = 1 ∧ k < s.b2c.preLeft.length then
+      some { s with stage := 3, b2c := { s.b2c with out := s.b2c.out ++ s.b2c.preLeft.take k, preLeft := s.b2c.preLeft.drop k } }
+    else none
+  | .rd toB n =>
     let d := s.get toB
-    if ¬ s.flushed ∨ s.shut ∨ d.done ∨ n = 0 ∨ n > d.inq.length then none
-    else some (s.set toB { d with inq := d.inq.drop n, out := d.out ++ d.inq.take n })
+    if s.live toB = false ∨ d.held ≠ [] ∨ d.rdErr = true ∨ n = 0 ∨ n > d.inq.length then none
+    else some (s.set toB { d with inq := d.inq.drop n, held := d.inq.take n })
+  | .rdE toB n =>
+    let d := s.get toB
+    if s.live toB = false ∨ d.held ≠ [] ∨ d.rdErr = true ∨ n > d.inq.length then none
+    else some (s.set toB { d with inq := d.inq.drop n, held := d.inq.take n, rdErr := true, done := decide (n = 0) })
+  | .wr toB =>
+    let d := s.get toB
+    if s.live toB = false ∨ d.held = [] then none
+    else some (s.set toB { d with out := d.out ++ d.held, held := [], done := d.rdErr })
+  | .wrFail toB k =>
+    let d := s.get toB
+    if s.live toB = false ∨ k ≥ d.held.length then none
+    else some (s.set toB { d with out := d.out ++ d.held.take k, held := d.held.drop k, done := true })
   | .eof toB =>
     let d := s.get toB
-    if ¬ s.flushed ∨ s.shut ∨ d.done ∨ ¬ d.srcClosed ∨ d.inq ≠ [] then none
-    else some (s.set toB { d with done := true })
-  | .wfail toB =>
-    let d := s.get toB
-    if ¬ s.flushed ∨ s.shut ∨ d.done ∨ ¬ (s.get (!toB)).srcClosed then none
+    if s.live toB = false ∨ d.held ≠ [] ∨ d.rdErr = true ∨ d.srcClosed = false ∨ d.inq ≠ [] then none
     else some (s.set toB { d with done := true })
   | .shutdown =>
-    if s.shut ∨ ¬ (s.c2b.done ∨ s.b2c.done) then none
+    if s.shut = true ∨ ¬ (s.stage = 3 ∨ s.c2b.done = true ∨ s.b2c.done = true) then none
     else some { s with shut := true }
 
 /-- run a schedule; steps that are not enabled are skipped (so every list of steps is a schedule) -/
@@ -80,20 +111,21 @@ def runSched (s : St) : List Step → St
   | [] => s
   | a :: rest => runSched ((step s a).getD s) rest
 
-/-- bytes accepted from the source but not (yet) written to the destination -/
-def Dir.pending (d : Dir) (flushed : Bool) : Bytes := (if flushed then [] else d.pre) ++ d.inq
-
-/-- a relay-side step is enabled (used to define quiescence) -/
+/-- an error-free relay-side step is enabled (used to define quiescence) -/
 def relayEnabled (s : St) : Bool :=
-  (step s .flush).isSome || (step s .shutdown).isSome ||
+  (step s .flushOk).isSome || (step s .shutdown).isSome ||
   (step s (.eof true)).isSome || (step s (.eof false)).isSome ||
-  (step s (.copy true 1)).isSome || (step s (.copy false 1)).isSome
+  (step s (.rd true 1)).isSome || (step s (.rd false 1)).isSome ||
+  (step s (.wr true)).isSome || (step s (.wr false)).isSome
 
-/-! canonical schedule used by the driver to predict the final observation of a scripted case -/
+/-! canonical error-free schedule used by the driver to predict the final observation of a scripted case -/
 def drain (s : St) : St :=
-  let s := (step s .flush).getD s
-  let s := (step s (.copy true s.c2b.inq.length)).getD s
-  let s := (step s (.copy false s.b2c.inq.length)).getD s
+  let s := (step s .flushOk).getD s
+  let s := (step s .flushOk).getD s
+  let s := (step s (.rd true s.c2b.inq.length)).getD s
+  let s := (step s (.wr true)).getD s
+  let s := (step s (.rd false s.b2c.inq.length)).getD s
+  let s := (step s (.wr false)).getD s
   let s := (step s (.eof true)).getD s
   let s := (step s (.eof false)).getD s
   (step s .shutdown).getD s
